@@ -1180,7 +1180,7 @@ func (c corr) String() string {
 	switch c.kind {
 	case "field", "altcontent":
 		return fmt.Sprintf("%d:%s.%d.%d", c.pos, c.kind, c.a, c.b)
-	case "wrongshare", "idx":
+	case "wrongshare", "idx", "crossval":
 		return fmt.Sprintf("%d:%s.%d", c.pos, c.kind, c.a)
 	}
 	return fmt.Sprintf("%d:%s", c.pos, c.kind)
@@ -1464,6 +1464,7 @@ func (e *episode) execAgg(run *hx.Run, o aggOp) {
 			s := mk(0)
 			idx := sh
 			signer := sh
+			signVal := vs.val
 			var posCorrs []corr
 			for _, c := range vs.corrs {
 				if c.pos == pos {
@@ -1476,6 +1477,8 @@ func (e *episode) execAgg(run *hx.Run, o aggOp) {
 					s = mk(1)
 				case "wrongshare":
 					signer = int(c.a)
+				case "crossval":
+					signVal = int(c.a) // the same share index of ANOTHER validator of the call signs (errors of two such swaps cancel in a sum)
 				case "validx":
 					if kind == kAtt {
 						vi := eth2p0.ValidatorIndex(ba.valIdx)
@@ -1496,7 +1499,7 @@ func (e *episode) execAgg(run *hx.Run, o aggOp) {
 			if kind == kRaw {
 				signV = view{dom: domAttester, epoch: up(vs.epoch), root: &[32]byte{byte(vi), 7}}
 			}
-			if sig, ok := signView(signV, signPlan{secret: cl.secretFor(vs.val, signer), dom: -1, forkEpoch: -1}); ok {
+			if sig, ok := signView(signV, signPlan{secret: cl.secretFor(signVal, signer), dom: -1, forkEpoch: -1}); ok {
 				s.setSig(sig)
 			}
 			for _, c := range posCorrs {
@@ -1998,8 +2001,11 @@ func (g *gen) systematic(kind int) {
 			one(v)
 		}
 		// multi-validator calls: all fine; one validator corrupted / too few / repeated share
-		for variant := 0; variant < 5; variant++ {
+		for variant := 0; variant < 6; variant++ {
 			nv := 2 + g.r.Intn(2)
+			if nv > g.cfg.m {
+				nv = g.cfg.m
+			}
 			perm := g.r.Perm(g.cfg.m)
 			var vals []valSpec
 			for i := 0; i < nv; i++ {
@@ -2009,6 +2015,16 @@ func (g *gen) systematic(kind int) {
 			}
 			bad := g.r.Intn(nv)
 			switch variant {
+			case 5:
+				// two validators over the same epoch and the same share set (for randao: the very same signed content); the
+				// partial of one share index is swapped between them: each aggregate is invalid, their sum is not
+				if nv < 2 {
+					continue
+				}
+				vals[1].epoch, vals[1].shares = vals[0].epoch, append([]int(nil), vals[0].shares...)
+				pos := g.r.Intn(len(vals[0].shares))
+				vals[0].corrs = []corr{{pos: pos, kind: "crossval", a: uint64(vals[1].val)}}
+				vals[1].corrs = []corr{{pos: pos, kind: "crossval", a: uint64(vals[0].val)}}
 			case 1:
 				ck := corrKinds[g.r.Intn(8)]
 				vals[bad].corrs = []corr{g.mkCorr(ck, g.r.Intn(len(vals[bad].shares)), vals[bad].shares)}
